@@ -84,6 +84,27 @@ def contracts():
         c(M + 'sign', name='math.sign/' + tag, params=dict(num=t),
           ensures=['result == (1 if num > 0 else (-1 if num < 0 else 0))'],
           native=None if tag == 'int' else False)
+    # bitwise operators on (unbounded) integers
+    for fn, op in (('bitwise_and', '&'), ('bitwise_or', '|'),
+                   ('bitwise_xor', '^')):
+        c(M + fn, params=dict(left=TInt, right=TInt),
+          ensures=['result == (left %s right)' % op])
+    c(M + 'bitwise_not', params=dict(arg=TInt),
+      ensures=['result == -arg - 1'])
+    for fn, op in (('shift_bits_left', '<<'), ('shift_bits_right', '>>')):
+        # (a shift by 2**63 bits is a MemoryError in CPython: outside the
+        # stated domain of the operators)
+        c(M + fn, params=dict(value=TInt, bits_number=TInt),
+          requires=['bits_number < 4096'],
+          raises={'ValueError': 'bits_number < 0'},
+          ensures=['bits_number >= 0',
+                   'result == (value %s bits_number)' % op]).native_scope = 3
+    c(M + 'int_', name='math.int_/null', params=dict(value=None),
+      ensures=['result == 0'], native=False)
+    c(M + 'int_', name='math.int_/int', params=dict(value=TInt),
+      ensures=['result == value'])
+    c(M + 'float_', name='math.float_/null', params=dict(value=None),
+      ensures=['result == 0'], native=False)
     c(M + 'is_integer', params=dict(value=TVal),
       ensures=['result == (ufn("tag", value, ret="Int") == 2)'], native=False)
     c(M + 'is_number', params=dict(value=TVal),
